@@ -140,7 +140,7 @@ def gen_configs(tier):
                          PeerAddrs={"a1"}, ConnHosts={2}, ConnAddrs={"a1"}, ConnPorts={5000},
                          MaxSocks=4, MaxOps=3, SwAddrs={"lo", "a1", "a2"}, SwPorts={5000, 49152})),
         ("gen_host2", base(NoWrap=True, BindHosts={1, 2}, BindAddrs={"wild", "a1", "b1"},
-                           BindPorts={5000, 49152, 0}, PeerAddrs={"b1"}, ConnHosts={1, 2},
+                           BindPorts={5000, 0}, PeerAddrs={"b1"}, ConnHosts={1, 2},
                            ConnAddrs={"a1", "b1", "lo"}, ConnPorts={5000}, MaxSocks=4, MaxOps=3,
                            SwAddrs={"lo", "a1", "b1", "x"}, SwPorts={5000, 49152})),
         ("gen_deep", base(NoWrap=True, BindAddrs={"wild", "a1", "a2"}, BindPorts={5000},
@@ -162,7 +162,7 @@ def gen_configs(tier):
 
 def random_configs(tier, seed):
     q = tier == "quick"
-    runs = 25 if q else 200
+    runs = 25 if q else 150
     return [dict(n=3, runs=runs, ops=16, probes=12, seed=seed * 101 + 1),
             dict(n=2, runs=runs, ops=20 if q else 30, probes=10, seed=seed * 101 + 2)]
 
